@@ -157,7 +157,11 @@ def _full(lg, res, op, k):
     n4 = operands4[0].shape[0]
     exp4 = ref_apply(op, operands4)
     out4 = np.full((2, (n4 + 7) // 8), 0x5A, dtype=np.uint8)
-    getattr(lg, 'bp4v_' + op)(out4, *[codes_to_bp(o, 2) for o in operands4])
+    ops4 = [codes_to_bp(o, 2) for o in operands4]
+    keep4 = [o.copy() for o in ops4]
+    getattr(lg, 'bp4v_' + op)(out4, *ops4)
+    if any(not np.array_equal(a, b) for a, b in zip(ops4, keep4)):
+        res.violation(f'C12/full/{op}/bp4v-operand-modified/k{k}', {'task': list(task)}, f'bp4v_{op} modified one of its operands')
     _cmp(res, task, f'bp4v_{op}/k{k}', bp_to_codes(out4, n4), exp4, operands4)
     res.evals += n4
     # 4-valued operators on three-plane arrays (what mv_to_bp delivers): the third plane carries no meaning for them,
@@ -166,7 +170,10 @@ def _full(lg, res, op, k):
         bps4 = [codes_to_bp(o, 3) for o in operands4]
         for b4 in bps4: b4[..., 2, :] = p2
         out43 = np.full((3, (n4 + 7) // 8), p2 ^ 0x3C, dtype=np.uint8)
+        keep43 = [b4.copy() for b4 in bps4]
         getattr(lg, 'bp4v_' + op)(out43, *bps4)
+        if any(not np.array_equal(a, b) for a, b in zip(bps4, keep43)):
+            res.violation(f'C12/full/{op}/bp4v-operand-modified/k{k}/3planes', {'task': list(task)}, f'bp4v_{op} modified one of its (three-plane) operands')
         _cmp(res, task, f'bp4v_{op}/k{k}/3planes-{p2:02x}', bp_to_codes(out43[..., :2, :], n4), exp4, operands4)
         res.count('bp4v_three_plane')
     # chaining: a 4-valued operator applied to the result array of another one (first operand), other operands fresh
